@@ -75,6 +75,20 @@ def write_chain(chain: MHLChain, new_hash_list: MHLHashList):
     # truncates the existing chain file
     temp_file_path = chain.file_path + ".tmp"
     file = open(temp_file_path, "wb")
+    try:
+        _write_chain_to_file(chain, new_hash_list, file)
+        file.flush()
+        file.close()
+    except BaseException:
+        # a run that fails while writing does not leave the temporary file behind
+        file.close()
+        os.remove(temp_file_path)
+        raise
+    os.replace(temp_file_path, chain.file_path)
+
+
+def _write_chain_to_file(chain: MHLChain, new_hash_list: MHLHashList, file):
+    """writes the xml of the chain, extended by the new hash list, to the given (open) file"""
     file.write(b'<?xml version="1.0" encoding="UTF-8"?>\n<ascmhldirectory xmlns="urn:ASC:MHL:DIRECTORY:v2.0">\n')
     current_indent = "  "
 
@@ -86,9 +100,6 @@ def write_chain(chain: MHLChain, new_hash_list: MHLHashList):
 
     current_indent = current_indent[:-2]
     _write_xml_string_to_file(file, "</ascmhldirectory>\n", current_indent)
-    file.flush()
-    file.close()
-    os.replace(temp_file_path, chain.file_path)
 
 
 def _write_xml_element_to_file(file, xml_element, indent: str):
